@@ -23,6 +23,8 @@ structure DS where
   connMap : List (Option Nat) := []
   hookA : Bool := false
   hookD : Bool := false
+  /-- the accept deadline expires right behind the next connection handed out (token `hE`, controlled listener only) -/
+  hookE : Bool := false
   nextAddr : Nat := 1
   /-- the serving call is `Listen` on a real socket at address 0 (no controlled listener) -/
   sock : Bool := false
@@ -139,8 +141,25 @@ def event (s : DS) (tok : String) : DS × String :=
       | none => (s, "unreachable")
       | some s1 =>
         let refused := (s1.w.conns[i]?).map (·.phase) == some .refused
-        (settleH fuel { s1 with connMap := s.connMap ++ [some i] }, if refused then "refused" else "ok")
+        let s2 := settleH fuel { s1 with connMap := s.connMap ++ [some i], hookE := false }
+        -- `hE`: when this connection was handed out by an Accept on an armed listener, the very next Accept of that
+        -- call returns a timeout (in the model: the connection is counted, the call is back in Accept, the deadline
+        -- expires) — the placement applies to this connect event only
+        let accepted := match s2.w.conns[i]? with
+          | some x => x.phase != .backlog && x.phase != .refused && x.phase != .dropped
+          | none => false
+        let s3 :=
+          if s.hookE && !s.sock && accepted then
+            match (s2.w.conns[i]?).map (·.owner) with
+            | some k =>
+              match stepExpire s2.w k with
+              | some w1 => settleH fuel { s2 with w := w1 }
+              | none => s2
+            | none => s2
+          else s2
+        (s3, if refused then "refused" else "ok")
   | ['h', 'A'] => ({ s with hookA := true }, "-")
+  | ['h', 'E'] => ({ s with hookE := true }, "-")
   | ['h', 'D'] => ({ s with hookD := true }, "-")
   | 'Q' :: _ =>
     match connFor s tok with
